@@ -398,7 +398,7 @@ pub fn cmd_worker(w: WorkerArgs) -> i32 {
         if let Some((label, sig)) = &o.cell {
             let e = cells.entry(label.clone()).or_insert((0, BTreeSet::new()));
             e.0 += 1;
-            if e.1.len() < 200_000 {
+            if e.1.len() < 5_000 {
                 e.1.insert(*sig);
             }
         }
